@@ -3117,15 +3117,21 @@ func (o *OperandOrDeferredTransfer) Decode(decoder *Decoder) error {
 	isDeferredTransfer := firstByte == 1
 	if isOperand {
 		cLog(Cyan, "OperandOrDeferredTransfer is Operand")
-		if err = o.Operand.Decode(decoder); err != nil {
+		operand := &Operand{}
+		if err = operand.Decode(decoder); err != nil {
 			return err
 		}
+		o.Operand = operand
+		o.DeferredTransfer = nil
 		return nil
 	} else if isDeferredTransfer {
 		cLog(Cyan, "OperandOrDeferredTransfer is DeferredTransfer")
-		if err = o.DeferredTransfer.Decode(decoder); err != nil {
+		deferredTransfer := &DeferredTransfer{}
+		if err = deferredTransfer.Decode(decoder); err != nil {
 			return err
 		}
+		o.Operand = nil
+		o.DeferredTransfer = deferredTransfer
 		return nil
 	}
 	return nil
